@@ -1,4 +1,4 @@
-package main
+package main_test
 
 // Reference model of the aspiration-level series (C14) used by C12/C13/C14.
 
